@@ -9,11 +9,18 @@
    is stated for all four combinations ([dev] = both on, [release] = both off).
    Negation: the property speaks of the signed types; the theorems are stated for the rows that
    HAVE a Neg impl (has_neg): today I11, I24, I48 and also the unsigned U11, but not the signed
-   I20 (see Sample/TypesNotes.v). *)
+   I20 (see Sample/TypesNotes.v).
+   [arith], [neg], [new], [from_rep], [from_src] are the HAND-WRITTEN model of the macro bodies
+   (Sample/TypesModel.v).  The c15_gen_* theorems at the end are about [gen_ops]: the model of the same
+   bodies REGENERATED from the current source at every run (coq/gen/TypesOpsGen.v, written by
+   translate/typesops2coq.py over the machine integers of Sample/Rint.v; embedding: Sample/TypesGenSem.v:
+   a generated function returns [Some (Ok v)], [Some (Panic k)], or [None] when a `while` loop used up its
+   [fuel] argument).  They say the two models are equal on all inputs, so every theorem above also holds
+   of the regenerated model; the main clauses are restated for it. *)
 Require Import List ZArith Bool String.
 From Dasp Require Import Base.Res Sample.TypesModel Sample.TypesProofs Sample.TypesTableProofs
-  Sample.TypesExamples.
-From DaspGen Require Import TypesTable.
+  Sample.TypesExamples Sample.TypesGenSem Sample.TypesGenEquiv Sample.TypesGenExamples.
+From DaspGen Require Import TypesTable TypesOpsGen.
 Import ListNotations.
 Open Scope Z_scope.
 
@@ -133,3 +140,108 @@ Theorem c15_any_wellformed_row : forall r, row_ok r -> forall c o a b, in_range 
      exists w, arith c r o a b = Ok w /\ in_range r w /\ (w - exact o a b) mod 2 ^ nbits r = 0).
 Proof. exact tbl_any_wellformed_row. Qed.
 Print Assumptions c15_any_wellformed_row.
+
+(* ======== the model regenerated from the macro BODIES of the current types.rs ======== *)
+
+(* One generated record of operations per row, in the same order, under the same name. *)
+Theorem c15_gen_covers : List.length gen_ops = List.length types_table /\
+  forall i r, nth_error types_table i = Some r -> exists o, nth_error gen_ops i = Some o /\ a_name (o_args o) = tname r.
+Proof. exact gen_covers. Qed.
+Print Assumptions c15_gen_covers.
+
+(* Generated = hand model on ALL inputs (not only in-range ones), for every row, every operation, every
+   configuration, and any fuel >= fuel_args (a constant of the type: Rep::MAX / TOTAL + 3): checked
+   construction, the single wrap, both `while` loops and From<Rep> (for every value of the Rep), + - *,
+   negation exactly for the types with an `impl_neg!` line, and one widening From per from-list entry.
+   In particular no generated loop runs out of fuel ([None] never occurs). *)
+Theorem c15_gen_ops_agree : forall i r, nth_error types_table i = Some r ->
+  exists o, nth_error gen_ops i = Some o /\ a_name (o_args o) = tname r /\
+  forall c fuel, (fuel_args (o_args o) <= fuel)%nat ->
+    (forall v, o_new o c fuel v = Some (Ok (new r v))) /\
+    (forall v, o_wrap_once o c fuel v = Some (wrap_overflow_once c r v)) /\
+    (forall v, imin (rep r) <= v <= imax (rep r) ->
+               o_wrap o c fuel v = Some (from_rep c r v) /\ o_from_rep o c fuel v = Some (from_rep c r v)) /\
+    (forall k a b, o_arith o k c fuel a b = Some (arith c r k a b)) /\
+    match o_neg o with
+    | Some f => has_neg r = true /\ forall a, f c fuel a = Some (neg c r a)
+    | None => has_neg r = false
+    end /\
+    Forall2 (fun s gf => forall v, snd gf c fuel v = Some (Ok (from_src r s v))) (froms r) (o_froms o).
+Proof. exact gen_ops_agree. Qed.
+Print Assumptions c15_gen_ops_agree.
+
+(* The same without any condition on the fuel: the macro arguments the translator read are the row's
+   (Rep type, EQUILIBRIUM, MIN, MAX, TOTAL), and the generated loops equal the hand model's fuelled loops
+   for EVERY fuel, the out-of-fuel outcome included. *)
+Theorem c15_gen_ops_agree_any_fuel : forall i r, nth_error types_table i = Some r ->
+  exists o, nth_error gen_ops i = Some o /\
+  (tname r = a_name (o_args o) /\ rep r = ity_of (a_rep (o_args o)) /\ eqv r = a_eq (o_args o) /\
+   rmin r = a_min (o_args o) /\ rmax r = a_max (o_args o) /\ total r = a_total (o_args o)) /\
+  forall c fuel,
+    (forall v, o_new o c fuel v = Some (Ok (new r v))) /\
+    (forall v, o_wrap_once o c fuel v = Some (wrap_overflow_once c r v)) /\
+    (forall v, o_wrap o c fuel v = wrap_overflow_fuel c r fuel v) /\
+    (forall v, o_from_rep o c fuel v = wrap_overflow_fuel c r fuel v) /\
+    (forall a b, o_add o c fuel a b = Some (arith c r OAdd a b)) /\
+    (forall a b, o_sub o c fuel a b = Some (arith c r OSub a b)) /\
+    (forall a b, o_mul o c fuel a b =
+                 if debug_assertions c then Some (arith c r OMul a b)
+                 else wrap_overflow_fuel c r fuel (iwrap (rep r) (a * b))) /\
+    match o_neg o with
+    | Some f => has_neg r = true /\ forall a, f c fuel a = Some (neg c r a)
+    | None => has_neg r = false
+    end /\
+    Forall2 (fun s gf => forall v, snd gf c fuel v = Some (Ok (from_src r s v))) (froms r) (o_froms o).
+Proof. exact gen_ops_agree_any_fuel. Qed.
+Print Assumptions c15_gen_ops_agree_any_fuel.
+
+(* The clauses of the property, stated directly for the regenerated operations. *)
+Theorem c15_gen_new : forall i r o, nth_error types_table i = Some r -> nth_error gen_ops i = Some o ->
+  forall c fuel, (fuel_args (o_args o) <= fuel)%nat -> forall v,
+  (in_range r v -> o_new o c fuel v = Some (Ok (Some v))) /\ (~ in_range r v -> o_new o c fuel v = Some (Ok None)).
+Proof. exact gen_new_spec. Qed.
+Print Assumptions c15_gen_new.
+
+Theorem c15_gen_from_rep : forall i r o, nth_error types_table i = Some r -> nth_error gen_ops i = Some o ->
+  forall c fuel, (fuel_args (o_args o) <= fuel)%nat -> forall v, imin (rep r) <= v <= imax (rep r) ->
+  exists w, o_from_rep o c fuel v = Some (Ok w) /\ in_range r w /\ (w - v) mod 2 ^ nbits r = 0.
+Proof. exact gen_from_rep_spec. Qed.
+Print Assumptions c15_gen_from_rep.
+
+Theorem c15_gen_arith_debug : forall i r o, nth_error types_table i = Some r -> nth_error gen_ops i = Some o ->
+  forall c fuel, (fuel_args (o_args o) <= fuel)%nat -> debug_assertions c = true ->
+  forall k a b, in_range r a -> in_range r b ->
+  (in_range r (exact k a b) -> o_arith o k c fuel a b = Some (Ok (exact k a b))) /\
+  (~ in_range r (exact k a b) -> o_arith o k c fuel a b = Some (Panic PExpect)).
+Proof. exact gen_arith_debug. Qed.
+Print Assumptions c15_gen_arith_debug.
+
+Theorem c15_gen_arith_release : forall i r o, nth_error types_table i = Some r -> nth_error gen_ops i = Some o ->
+  forall c fuel, (fuel_args (o_args o) <= fuel)%nat -> debug_assertions c = false ->
+  forall k a b, in_range r a -> in_range r b ->
+  exists w, o_arith o k c fuel a b = Some (Ok w) /\ in_range r w /\ (w - exact k a b) mod 2 ^ nbits r = 0.
+Proof. exact gen_arith_release. Qed.
+Print Assumptions c15_gen_arith_release.
+
+Theorem c15_gen_neg : forall i r o, nth_error types_table i = Some r -> nth_error gen_ops i = Some o ->
+  forall c fuel, (fuel_args (o_args o) <= fuel)%nat -> forall f, o_neg o = Some f -> forall a, in_range r a ->
+  (debug_assertions c = true ->
+     (in_range r (- a) -> f c fuel a = Some (Ok (- a))) /\ (~ in_range r (- a) -> f c fuel a = Some (Panic PExpect))) /\
+  (debug_assertions c = false ->
+     exists w, f c fuel a = Some (Ok w) /\ in_range r w /\ (w - - a) mod 2 ^ nbits r = 0).
+Proof. exact gen_neg_spec. Qed.
+Print Assumptions c15_gen_neg.
+
+Theorem c15_gen_from_widening : forall i r o, nth_error types_table i = Some r -> nth_error gen_ops i = Some o ->
+  forall c fuel, (fuel_args (o_args o) <= fuel)%nat ->
+  Forall2 (fun s gf =>
+      exists slo shi, src_range types_table s = Some (slo, shi) /\
+        forall v, slo <= v <= shi -> snd gf c fuel v = Some (Ok v) /\ in_range r v) (froms r) (o_froms o).
+Proof. exact gen_widening_spec. Qed.
+Print Assumptions c15_gen_from_widening.
+
+Theorem c15_gen_never_outside : forall i r o, nth_error types_table i = Some r -> nth_error gen_ops i = Some o ->
+  forall c fuel, (fuel_args (o_args o) <= fuel)%nat -> forall k a b w, in_range r a -> in_range r b ->
+  o_arith o k c fuel a b <> None /\ (o_arith o k c fuel a b = Some (Ok w) -> in_range r w).
+Proof. exact gen_never_outside. Qed.
+Print Assumptions c15_gen_never_outside.
